@@ -16,7 +16,8 @@ def simcore_designs(invariants, properties=()):
 
 
 SIMRUN_INV = {"Inv_C03_OneInFlight", "Inv_C04_Conserved", "Inv_C04_CompleteIff", "Inv_C10_LiveTradesExact", "Inv_C10_TradeCompleteIff",
-              "Inv_C10_NoTradePending", "Inv_C15_LiveListComplete", "Inv_C07_NoDueLeft", "Inv_C05_FokNeverRests", "Inv_C09_RemovedComplete"}
+              "Inv_C10_NoTradePending", "Inv_C15_LiveListComplete", "Inv_C07_NoDueLeft", "Inv_C05_FokNeverRests", "Inv_C09_RemovedComplete",
+              "Inv_C08_UnmatchedPaysNothing", "Inv_C08_RemovedPaysNothing", "Inv_C08_LossBounded", "Inv_C20_Released", "Inv_C04_FragmentsAtClose"}
 SIMRUN_PROP = {"Prop_C03_Finality", "Prop_C04_MatchedMonotone"}
 
 
@@ -27,10 +28,10 @@ def simrun_designs(invariants, properties=(), quick=True):
     prp = [q for q in properties if q in SIMRUN_PROP]
     out = []
     if quick:
-        out.append({"module": "MC_SimRun", "constants": {"MaxUpdates": "3", "MaxReqs": "2", "TwoStrats": "FALSE", "Iso": "TRUE"}, "view": "View", "invariants": inv, "properties": prp,
-                    "must_reach": ["Reach_Replacement"], "timeout": 900})
-    out.append({"module": "MC_SimRun", "constants": {"MaxUpdates": "4", "MaxReqs": "3", "TwoStrats": "FALSE", "Iso": "TRUE"}, "view": "View", "invariants": inv, "properties": prp,
-                "must_reach": ["Reach_Replacement", "Reach_QueueHonoured"], "tier": "thorough", "timeout": 2400})
+        out.append({"module": "MC_SimRun", "constants": {"MaxUpdates": "3", "MaxReqs": "2", "TwoStrats": "FALSE", "Iso": "TRUE", "WithClose": "TRUE"}, "view": "View", "invariants": inv, "properties": prp,
+                    "must_reach": ["Reach_Replacement", "Reach_ClosedWithFill", "Reach_FilledOnClosingUpdate"], "timeout": 900})
+    out.append({"module": "MC_SimRun", "constants": {"MaxUpdates": "4", "MaxReqs": "3", "TwoStrats": "FALSE", "Iso": "TRUE", "WithClose": "TRUE"}, "view": "View", "invariants": inv, "properties": prp,
+                "must_reach": ["Reach_Replacement", "Reach_QueueHonoured", "Reach_ClosedWithFill"], "tier": "thorough", "timeout": 2400})
     return out
 
 
@@ -118,7 +119,7 @@ SIM = {
         "props": ["C04"],
         "extra": ["early_result", "sp_conversion", "bucket_corners", "inflight_fill"],
         "designs": simcore_designs(["Inv_C04_Conserved", "Inv_C04_CompleteIff"], ["Prop_C04_MatchedMonotone"])
-        + simrun_designs(["Inv_C04_Conserved", "Inv_C04_CompleteIff"], ["Prop_C04_MatchedMonotone"]),
+        + simrun_designs(["Inv_C04_Conserved", "Inv_C04_CompleteIff", "Inv_C04_FragmentsAtClose"], ["Prop_C04_MatchedMonotone"]),
         "profiles": LIFECYCLE_PROFILES + [{"p_partial_cancel": 0.8, "p_big_reduction": 0.5, "p_removal": 0.12, "p_cancel": 0.5}],
         "n_quick": 200, "n_thorough": 5000,
         "rule": "as C03; the size buckets of every order are judged whenever a strategy callback is entered",
@@ -198,7 +199,9 @@ SIM = {
     "C08": {
         "props": ["C08", "M"],
         "designs": [{"module": "MC_Settlement", "constants": {"Prices": "{101, 200, 350, 5000}", "Stakes": "{100, 236}"},
-                     "invariants": ["Inv_SideSymmetry", "Inv_ZeroIfUnmatchedOrRemoved", "Inv_LoserLosesStake", "Inv_WinnerAtLeastLoser", "Inv_DeadHeatReduces", "Inv_LineEvenMoney"]}],
+                     "invariants": ["Inv_SideSymmetry", "Inv_ZeroIfUnmatchedOrRemoved", "Inv_LoserLosesStake", "Inv_WinnerAtLeastLoser", "Inv_DeadHeatReduces", "Inv_LineEvenMoney"]}]
+        # the lifecycle composed with the rules: whatever the closed model leaves at its close settles as the rules say
+        + simrun_designs(["Inv_C08_UnmatchedPaysNothing", "Inv_C08_RemovedPaysNothing", "Inv_C08_LossBounded", "Inv_C04_FragmentsAtClose"]),
         "profiles": [{"p_close": 1.0, "p_full_match": 0.3, "p_trade": 0.9, "p_removal": 0.08, "p_sp_order": 0.2, "p_inplay": 0.2, "center": (20, 200), "sizes": [2.0, 3.0, 0.5, 10.0, 2.36, 25.0]},
                      {"p_close": 1.0, "p_trade": 0.9, "n_strategies": (2, 2), "market_types": ["WIN", "EACH_WAY", "EACH_WAY", "PLACE"], "center": (20, 160)}],
         "extra": ["settlement", "handicap_lines", "closure"],
@@ -211,7 +214,8 @@ SIM = {
         "designs": [{"module": "MC_Closure", "constants": {"Markets": '{"m1", "m2"}', "Strategies": '{"A", "B", "C"}', "Subscribed": "<- SubDef", "Clients": '{"c1", "c2"}', "Live": "FALSE", "MaxSteps": "6"},
                      "invariants": ["Inv_CallbackOncePerClosingUpdate", "Inv_SummaryPerClientPerClose", "Inv_ClosedFlag", "Inv_ReopenResetsFlags", "Inv_StateReleased", "Inv_RemovedStateReleased"], "must_reach": ["Reach_Reclosed"]},
                     {"module": "MC_Closure", "constants": {"Markets": '{"m1", "m2"}', "Strategies": '{"A", "B", "C"}', "Subscribed": "<- SubDef", "Clients": '{"c1", "c2"}', "Live": "TRUE", "MaxSteps": "6"},
-                     "invariants": ["Inv_CallbackOncePerClosingUpdate", "Inv_ReopenResetsFlags", "Inv_LiveRemovesOnlyAfterHour", "Inv_RemovedStateReleased"], "must_reach": ["Reach_Removed"]}],
+                     "invariants": ["Inv_CallbackOncePerClosingUpdate", "Inv_ReopenResetsFlags", "Inv_LiveRemovesOnlyAfterHour", "Inv_RemovedStateReleased"], "must_reach": ["Reach_Removed"]}]
+        + simrun_designs(["Inv_C20_Released", "Inv_C04_CompleteIff"]),
         "profiles": [{"p_close": 1.0, "n_markets": (1, 2), "n_updates": (3, 8)}],
         "extra": ["closure", "handicap_lines", "settlement"],
         "n_quick": 80, "n_thorough": 2000,
